@@ -42,11 +42,14 @@ R.contract(
         ("count-exact", "result == ite(old(len(self._d)) > self._max, old(len(self._d)) - self._max, 0)"),
         ("size-within-cap", "len(self._d) <= self._max and len(self._d) == old(len(self._d)) - result"),
         ("evicts-oldest-first", "suffix_from(okeys(self._d), " + OLDKEYS + ", result)"),
+        ("evicted-exactly-the-oldest",
+         "forall((k, 'Un[K]'), True, (k in self._d) == (old(k in self._d) and opos(old(self._d), k) >= result))"),
         ("survivors-unchanged", "same_entries(self._d, old(self._d))"),
         FRAME_CFG,
     ],
     modifies=["self._d"],
     loops={0: {"inv": [
+        "forall((k, 'Un[K]'), True, (k in self._d) == (k in pre_loop(self._d) and opos(pre_loop(self._d), k) >= ev))",
         "ev >= 0",
         "len(self._d) == len(pre_loop(self._d)) - ev",
         "implies(ev > 0, len(self._d) >= self._max)",
@@ -132,6 +135,7 @@ R.contract(
 
 R.contract(
     NS + "size", "C15",
+    modifies=[],
     types={"self": "_NamespaceCache"},
     returns="int",
     ensures=[("exact", "result == len(self._d)"),
@@ -142,6 +146,7 @@ R.contract(
 
 R.contract(
     NS + "items", "C15",
+    modifies=[],
     types={"self": "_NamespaceCache"},
     returns="List[Tuple[Un[K], Un[V]]]",
     ensures=[("lists-all-oldest-first",
@@ -222,6 +227,7 @@ def store_clauses(P):
 # ------------------------------------------------------------------ CacheManager._hashable_or_stable
 R.contract(
     CACHE + "CacheManager._hashable_or_stable", "C15",
+    modifies=[],
     types={"key": "Un[K]"},
     returns="Un[K]",
     ensures=[("hashable-key-is-its-own-cache-key", "result == key")],
@@ -240,6 +246,7 @@ WF1 = [("wf", "wf_nscache(self._ns)")]
 
 R.contract(
     LC + "get", "C15",
+    modifies=["self._hits", "self._misses", "self._ns._d"],
     types={"self": "LRUCacheT", "key": "Un[K]"},
     returns="Optional[Un[V]]",
     ghost=GHOST_NOW,
@@ -250,6 +257,7 @@ R.contract(
 )
 R.contract(
     LC + "get2", "C15",
+    modifies=["self._hits", "self._misses", "self._ns._d"],
     types={"self": "LRUCacheT", "key": "Un[K]"},
     returns="Tuple[bool, Optional[Un[V]]]",
     ghost=GHOST_NOW,
@@ -262,6 +270,7 @@ R.contract(
 for _m in ("set", "put"):
     R.contract(
         LC + _m, "C15",
+        modifies=["self._evicted", "self._ns._d"],
         types={"self": "LRUCacheT", "key": "Un[K]", "value": "Un[V]"},
         ghost=GHOST_NOW,
         requires=WF1,
@@ -270,6 +279,7 @@ for _m in ("set", "put"):
     )
 R.contract(
     LC + "__contains__", "C15",
+    modifies=["self._ns._d"],
     types={"self": "LRUCacheT", "key": "Un[K]"},
     returns="bool",
     ghost=GHOST_NOW,
@@ -289,6 +299,7 @@ R.contract(
 )
 R.contract(
     LC + "invalidate", "C15",
+    modifies=["self._ns._d"],
     types={"self": "LRUCacheT"},
     returns="int",
     ensures=[("count-exact", "result == old(len(self._ns._d))"), ("emptied", "len(self._ns._d) == 0"),
@@ -298,6 +309,7 @@ R.contract(
 for _m in ("size", "__len__"):
     R.contract(
         LC + _m, "C15",
+        modifies=[],
         types={"self": "LRUCacheT"},
         returns="int",
         requires=WF1,
@@ -307,6 +319,7 @@ for _m in ("size", "__len__"):
     )
 R.contract(
     LC + "stats", "C15",
+    modifies=[],
     types={"self": "LRUCacheT"},
     ensures=[("reports-counters", "result['hits'] == self._hits and result['misses'] == self._misses and "
                                   "result['evicted'] == self._evicted and result['size'] == len(self._ns._d)"),
@@ -315,6 +328,7 @@ R.contract(
 )
 R.contract(
     LC + "items", "C15",
+    modifies=["self._ns._d"],
     types={"self": "LRUCacheT"},
     returns="List[Tuple[Un[K], Un[V]]]",
     ghost=GHOST_NOW,
@@ -385,6 +399,7 @@ HA = hit_expr(PA)
 
 R.contract(
     CM + "get", "C15",
+    modifies=["self._hits", "self._misses", "self._ns['ns:a']._d"],
     types={"self": "CacheMgrT", "namespace": "='ns:a'", "key": "Un[K]"},
     returns="Tuple[bool, Optional[Un[V]]]",
     ghost=GHOST_NOW,
@@ -397,6 +412,7 @@ R.contract(
 )
 R.contract(
     CM + "set", "C15",
+    modifies=["self._evicted", "self._ns['ns:a']._d"],
     types={"self": "CacheMgrT", "namespace": "='ns:a'", "key": "Un[K]", "value": "Un[V]"},
     ghost=GHOST_NOW,
     requires=WFAB,
@@ -405,6 +421,7 @@ R.contract(
 )
 R.contract(
     CM + "invalidate_namespace", "C15",
+    modifies=["self._ns['ns:a']._d"],
     types={"self": "CacheMgrT", "namespace": "='ns:a'"},
     returns="int",
     ensures=[("empties-that-namespace", "len(%s._d) == 0 and result == old(len(%s._d))" % (PA, PA)),
@@ -424,6 +441,7 @@ R.contract(
 )
 R.contract(
     CM + "invalidate_all", "C15",
+    modifies=["self._ns['ns:a']._d", "self._ns['ns:b']._d"],
     types={"self": "CacheMgrT"},
     returns="int",
     mode="bounded", name="CacheManager.invalidate_all (bounded: two namespaces)",
@@ -433,6 +451,7 @@ R.contract(
 )
 R.contract(
     CM + "stats", "C15",
+    modifies=[],
     types={"self": "CacheMgrT"},
     mode="bounded", name="CacheManager.stats (bounded: two namespaces)",
     ensures=[("reports-counters", "result['hits'] == self._hits and result['misses'] == self._misses and "
@@ -469,6 +488,7 @@ R.contract(
                                  "self._evicted == old(self._evicted)"),
              ("namespace-created-empty", "len(%s._d) == 0 and wf_nscache(%s)" % (PN, PN)), OTHER_UNTOUCHED],
     raises="none",
+    unreachable_ok=["self._hits += 1"],     # a namespace created by this very call is empty: always a miss
 )
 R.contract(
     CM + "set", "C15", name="CacheManager.set[new namespace]", callee=False,
@@ -609,6 +629,7 @@ SEG_END = "ite(a + 1 < len(marks), marks[a + 1], len(queries))"
 
 R.contract(
     CACHE + "merge_caches_deterministic", "C15",
+    modifies=[],      # the worker caches are only read (verified frame)
     types={"target": "MergeTarget", "worker_caches": WCS, "worker_order_key": "=wkey", "key_order_key": "=kord",
            "on_conflict": "str"},
     ghost=MERGE_GHOST,
